@@ -20,6 +20,8 @@ pub struct Inst {
     pub k: u32,
     /// Preemption bound to use together with k (None = the tier's default).
     pub p_with_k: Option<u32>,
+    /// Too large for the quick tier at the bound where it is useful.
+    pub thorough_only: bool,
     /// Whether every value must be dead at the end (false for harnesses that deliberately leak).
     pub expect_all_dead: bool,
     pub tls_reverse: bool,
